@@ -59,7 +59,7 @@ def run(ctx):
     ctx.mc("Cmp", "CmpMC.cfg", consts={"NCases": 1, "Scope": 2 if thorough else 1},
            workers=vf.NCPU, deadlock=False, timeout=3000)
     # 2. Gen: comparer cases and stream histories from the specification
-    n = 60000 if thorough else 3000
+    n = 100000 if thorough else 3000
     gen = ctx.tlc("Cmp", "CmpGen.cfg", consts={"NCases": n, "Scope": 1}, workers=4, timeout=1800)
     cases = gen.cases()
     if len(cases) < n:
